@@ -124,4 +124,17 @@ PROPS = {
         level_text="Generated-input search on the real executables: for each generated stdin document and ordered list of patch files (applicable, failing, malformed, missing, directory; all four flag spellings) the exit status, stdout and stderr are compared with the fold of the library calls: byte-identical stdout and exit 0 on success; no stdout, a message on stderr and a non-zero exit otherwise. Exploration only.",
         level_note="Trusted: the library itself as the reference for what 'applying the patches' means (C01 covers that), os/exec. Cases on which the library panics in process are excluded here (C04).",
     ),
+    "C04": dict(
+        pkg="c04",
+        units=[rapid("TestPropBytes", 5000, 60000, memlimit="6GiB"), rapid("TestPropStruct", 2500, 30000, memlimit="6GiB"),
+               rapid("TestPropBytesLegacy", 4000, 40000, memlimit="6GiB"), rapid("TestPropStructLegacy", 3000, 30000, memlimit="6GiB"),
+               plain("TestDeep", shards=dict(quick=4, thorough=16), timeout=dict(quick=900, thorough=3600)),
+               fuzz("FuzzV5", 120), fuzz("FuzzLegacy", 90)],
+        exhaustive_units=[],
+        assumptions=COMMON_ASSUME + ["a panic is observed by recover() around the library call only; a hang is nominated by a 30 s per-case wall-clock watchdog and only a confirmation under a CPU-time limit would be reported",
+                                     "the library is quadratic in nesting depth (lazy re-parsing per level, also on the pinned tree): ~10 s per call at depth 10 000 is slow, not a hang"],
+        technique="property-based testing (rapid) with hostile byte-level and structure-level generators over every entry point, option combination and the legacy package; enumerated deep-nesting cases at the codec's limit; native go fuzzing in the thorough tier",
+        level_text="Generated-input search: every exported entry point of v5 and of the staged legacy package is called (inside recover) with hostile byte strings and with hostile documents x patches from a loose grammar under all option combinations, root replacements first, and nesting at 9 999/10 000/10 001 levels; the thorough tier adds coverage-guided native fuzzing of the same check. A violation is a recovered panic, a dead process, or a confirmed hang. Exploration only.",
+        level_note="Trusted: recover() observes every panic of the calling goroutine (the library starts no goroutines). Outside the stated domain and not generated: nil options, hand-assembled Patch values, array indices above 10^4 under EnsurePathExistsOnAdd.",
+    ),
 }
